@@ -27,8 +27,9 @@ Record hptl := mkHPtl {
 (* ShortTermRPS *)
 Record hrps := mkHRps {
   rps_dp0 : list N; rps_dp1 : list N; rps_u0 : list bool; rps_u1 : list bool;
-  rps_nneg : N; rps_npos : N; rps_ndelta : N }.
-Definition hrps_zero : hrps := mkHRps [] [] [] [] 0 0 0.
+  rps_nneg : N; rps_npos : N; rps_ndelta : N;
+  rps_nused : N }.      (* unexported numUsedByCurrPic: entries with used_by_curr_pic_flag = 1 of an inter-predicted set *)
+Definition hrps_zero : hrps := mkHRps [] [] [] [] 0 0 0 0.
 
 (* LongTermRPS *)
 Record hlt := mkHLt { lt_poc_lsb : N; lt_used : bool; lt_msb_present : bool; lt_msb_cycle : N }.
@@ -138,8 +139,9 @@ Section HParsers.
     ret (mkHPtl sp t idc c k (u8 lvl) subs).
 
   (* ---- parseShortTermRPS(r, idx, numSTRefPicSets, sps); sets = the reference picture sets parsed so far *)
-  Definition hparse_rps_inter_entry : M bool :=
-    u <- rd_flag R ;; d <- (if negb u then rd_flag R else ret true) ;; ret (u || d).
+  (* (used_by_curr_pic_flag, used_by_curr_pic_flag || use_delta_flag) *)
+  Definition hparse_rps_inter_entry : M (bool * bool) :=
+    u <- rd_flag R ;; d <- (if negb u then rd_flag R else ret true) ;; ret (u, u || d).
 
   Definition hparse_st_rps (idx num : N) (sets : list hrps) : M hrps :=
     inter <- (if 0 <? idx then rd_flag R else ret false) ;;
@@ -152,17 +154,17 @@ Section HParsers.
       | None => fun _ => Panic
       | Some ref =>
           fls <- rep_n (rps_ndelta ref + 1) hparse_rps_inter_entry ;;
-          ret (mkHRps [] [] [] [] 0 0 (u8 (countb fls)))
+          ret (mkHRps [] [] [] [] 0 0 (u8 (countb (map snd fls))) (u8 (countb (map fst fls))))
       end
     else
       nn0 <- rd_ue R ;;
       np0 <- rd_ue R ;;
       let nn := u8 nn0 in
       let np := u8 np0 in
-      if (16 <? nn) || (16 <? np) then u <- set_err R ;; ret (mkHRps [] [] [] [] nn np 0) else
+      if (16 <? nn) || (16 <? np) then u <- set_err R ;; ret (mkHRps [] [] [] [] nn np 0 0) else
       s0 <- rep_n nn (d <- rd_ue R ;; u <- rd_flag R ;; ret (u32 (u64 (d + 1)), u)) ;;
       s1 <- rep_n np (d <- rd_ue R ;; u <- rd_flag R ;; ret (u32 (u64 (d + 1)), u)) ;;
-      ret (mkHRps (map fst s0) (map fst s1) (map snd s0) (map snd s1) nn np (u8 (nn + np))).
+      ret (mkHRps (map fst s0) (map fst s1) (map snd s0) (map snd s1) nn np (u8 (nn + np)) 0).
 
   (* the loop of ParseSPSNALUnit: `if r.AccError() != nil { return sps, r.AccError() }` after each set *)
   Fixpoint hparse_rps_loop (cnt : nat) (idx num : N) (acc : list hrps) : M (list hrps) :=
@@ -679,7 +681,7 @@ Section HParsers2.
 
   (* ====================================================================== slice header (hevc/slice.go) *)
   (* ShortTermRPS.countInUsePics (uint8) *)
-  Definition hcount_in_use (r : hrps) : N := u8 (countb (rps_u0 r) + countb (rps_u1 r)).
+  Definition hcount_in_use (r : hrps) : N := u8 (u8 (countb (rps_u0 r) + countb (rps_u1 r)) + rps_nused r).
 
   (* the loop over num_long_term_sps + num_long_term_pics entries; npt = NumPicTotalCurr (uint8) *)
   Fixpoint hlt_loop (cnt : nat) (i nlsps : N) (sp : hsps) (acc : list hlt) (npt : N) : M (list hlt * N) :=
